@@ -295,7 +295,39 @@ def mutate_isempty(repo, f):
     return n
 
 
+def mutate_tailret(repo, f):
+    """the tail expression `e` of the function becomes `return e;`"""
+    p = os.path.join(repo, f["file"])
+    lines = open(p, encoding="utf-8").read().split("\n")
+    l0, l1 = f["l"] - 1, f["el"] - 1            # l1: the line of the closing brace
+    if l1 <= l0 + 1 or lines[l1].strip() != "}":
+        return 0
+    ind = lines[l1][:len(lines[l1]) - len(lines[l1].lstrip())] + "    "
+    end = l1 - 1
+    while end > l0 and not lines[end].strip():
+        end -= 1
+    if lines[end].rstrip().endswith(";") or lines[end].lstrip().startswith("//"):
+        return 0
+    start = end
+    while start > l0 and not (lines[start].startswith(ind) and not lines[start].startswith(ind + " ") and lines[start][len(ind):len(ind) + 1] not in "})].?"):
+        start -= 1
+    if start <= l0:
+        return 0
+    head = lines[start][len(ind):]
+    if head.startswith(("let ", "for ", "while ", "loop", "return", "//", "#[", "fn ", "use ", "if ", "match ", "unsafe")):
+        return 0
+    # the signature must be over (the body starts at or before `start`)
+    if not any(lines[i].rstrip().endswith("{") for i in range(l0, start)):
+        return 0
+    lines[start] = ind + "return " + head
+    lines[end] = lines[end] + ";"
+    open(p, "w", encoding="utf-8").write("\n".join(lines))
+    return 1
+
+
 def mutate(repo, f):
+    if MODE == "tailret":
+        return mutate_tailret(repo, f)
     if MODE == "ifnot":
         return mutate_ifnot(repo, f)
     if MODE == "iflet":
